@@ -17,12 +17,19 @@ import numpy as np
 from harness.common import enc, Z, B, to_zs, kids, tag
 
 PROP = 'C18'
-GENERATORS = []
+GENERATORS = ['gen_viewer', 'gen_picker']
 TRUSTED = [
-    'hand model coq/C18/Model.v of Viewer.add_data/add_subset/remove_data/remove_subset, the two sync callbacks, the hub handlers and their filters '
-    '(glue/viewers/common/viewer.py, glue/core/layer_artist.py), of DataCollection append/remove/new_subset_group/remove_subset_group as far as '
-    'data.subsets is concerned, of ComponentIDComboHelper.refresh / ManualDataComboHelper / DataCollectionComboHelper and of the four '
-    'ImageViewerState._on_*_change handlers: tied to the code by step-by-step correspondence on the explored histories only',
+    'tools/gen/gen_viewer.py translates (fail-closed, statement by statement, on every run) Viewer.add_data / add_subset / remove_data / remove_subset / remove_layer, the two sync '
+    'callbacks, the hub handlers and filters with the subscription table of register_to_hub, the callback registrations of Viewer.__init__, LayerArtist.__init__ and '
+    'LayerArtistContainer.append / remove / pop / _notify / __contains__ / __iter__ / __getitem__ / layers into coq/gen/Gen_viewer.v; gen_step_refines / gen_viewer_inv_reachable tie the hand '
+    'model of part 1 to that text for every operation outside user-opened delay blocks; the translator itself, its preamble (heap, echo CallbackList / delay_callback rendering, object '
+    'identities) and the environment of Model.v part 5 (the collection sending the hub messages) are trusted and exercised by the viewer_gen / viewer_updates streams',
+    'tools/gen/gen_picker.py translates ComponentIDComboHelper.refresh, _filter_msg, register_to_hub, remove_data, _remove_data, clear and the seven flag setters into coq/gen/Gen_picker.v; '
+    'gen_picker_step_refines / gen_picker_inv_reachable / gen_refresh_attrs tie part 2 of the hand model to that text; '
+    'gen_dpicker_inv_reachable ties part 3 (ManualDataComboHelper / DataCollectionComboHelper procedures, unique_data_iter, subscription tables) to the same generated file; '
+    'ComponentIDComboHelper.append_data / set_multiple_data (hub adoption) and the four ImageViewerState._on_*_change handlers stay hand-modelled (correspondence only)',
+    'hand model coq/C18/Model.v of DataCollection append/remove/new_subset_group/remove_subset_group as far as data.subsets is concerned (C06 translates those functions), '
+    'of the dataset mutations seen by the pickers, and of viewer operations inside user-opened delay_callback(state, "layers") blocks: tied to the code by step-by-step correspondence only',
     'echo (CallbackProperty, SelectionCallbackProperty._choices_updated, delay_callback, CallbackList) is an external library: its selection rule is '
     'modelled (choices_updated) and compared, its callback machinery is the runtime',
     'matplotlib / WCSAxes are the runtime of the Simple*Viewer classes; canvas drawing is replaced by a no-op in most histories (a few run with real Agg drawing)',
@@ -44,6 +51,9 @@ ASSUMPTIONS = [
     'or an artist without layer state (Coq: viewer_blocks_refuted; both reproduced) - this user-level misuse of an internal callback property is documented, not reported; '
     '(b) hub.delay_callbacks() blocks around collection operations are exercised oracle-only (the deferral of the subset groups\' own handlers is C06/C07 territory), '
     'invariants evaluated when the block is left; viewer operations are not put inside hub blocks',
+    'user-opened delay_callback(viewer.state, "layers") blocks are not combined with real canvas drawing: inside such a block the image viewer has not yet chosen its '
+    'reference data when the first add_data draws (Agg), and get_sliced_data raises TypeError (numpy_slice_aggregation_transpose is None); reproduced on the unchanged code, '
+    'same class of misuse of an internal callback property as above: documented, not reported; the histories with real drawing carry no user-opened blocks',
     'explicit selections are assignments of a value (accepted when it is one of the choices, ValueError otherwise); assigning None by hand is echo API, outside the statement',
     'inside an open hub delay block the picker is compared with the model (queued messages) but "choices = filtered attributes" is evaluated when the block closes',
     'viewer save/restore goes through a session (Application subclass that also saves its viewers, as glue-qt does); histogram and profile viewers are included only when '
@@ -93,15 +103,42 @@ def HApp_cls():
 
 
 _LIGHT = None
+_EVENTS = []       # opaque calls made by the light viewer and its layer artists during the current step: (code, layer object)
 
 
 def LightViewer_cls():
+    """glue.viewers.common.viewer.Viewer itself (nothing overridden that the translation covers); the hooks the translated code
+    treats as opaque calls (draw_legend, layer_artist.update / remove / _on_components_changed) record themselves in _EVENTS"""
     global _LIGHT
     if _LIGHT is None:
         from glue.viewers.common.viewer import Viewer
+        from glue.viewers.common.layer_artist import LayerArtist
+
+        class RecArtist(LayerArtist):
+            def update(self):
+                _EVENTS.append((2, self.layer))
+
+            def remove(self):
+                _EVENTS.append((3, self.layer))
+
+            def _on_components_changed(self, components_changed):
+                _EVENTS.append((4, self.layer))
+
+            def clear(self):
+                pass
+
+            def redraw(self):
+                pass
+        RecArtist.__module__ = __name__
+        RecArtist.__qualname__ = 'RecArtist'
+        globals()['RecArtist'] = RecArtist
 
         class LightViewer(Viewer):
-            pass
+            _data_artist_cls = RecArtist
+            _subset_artist_cls = RecArtist
+
+            def draw_legend(self, *args):
+                _EVENTS.append((1, None))
         LightViewer.__module__ = __name__
         LightViewer.__qualname__ = 'LightViewer'
         globals()['LightViewer'] = LightViewer
@@ -174,6 +211,9 @@ class Sess(object):
         self.ngroups = 0
         self.lcm = {}            # open delay_callback(viewer.state, 'layers') blocks, per viewer
         self.hcm = None          # open hub.delay_callbacks() block
+        self.msgs = []           # update messages the hub carried during the current step (see UPDATE_OPS)
+        self._rec = None
+        self.ncomp = 0
 
     # -- objects
     def get_data(self, d):
@@ -207,6 +247,38 @@ class Sess(object):
             if s is L:
                 k = i
         return (1, self.data_id(d), self.group_id(getattr(L, 'group', None)), k)
+
+    def event_key(self, ev):
+        from glue.core import BaseData
+        code, L = ev
+        if L is None:
+            return (code,)
+        if isinstance(L, BaseData):
+            return (code, self.data_id(L), -1)
+        return (code, self.data_id(getattr(L, 'data', None)), self.group_id(getattr(L, 'group', None)))
+
+    def record_updates(self):
+        """listen to the four update-message classes the viewer subscribes to (no structural effect; the translated handlers answer
+        with artist.update() calls)"""
+        from glue.core.hub import HubListener
+        from glue.core import message as M
+        sess = self
+
+        class Rec(HubListener):
+            def notify(self, message):
+                sess.msgs.append(message)
+        self._rec = Rec()
+        for cls in (M.SubsetUpdateMessage, M.NumericalDataChangedMessage, M.ComponentsChangedMessage, M.ExternallyDerivableComponentsChangedMessage):
+            self.dc.hub.subscribe(self._rec, cls, handler=self._rec.notify)
+
+    def msg_key(self, m):
+        from glue.core import message as M
+        code = 1 if isinstance(m, M.SubsetUpdateMessage) else 2 if isinstance(m, M.NumericalDataChangedMessage) else \
+            4 if isinstance(m, M.ExternallyDerivableComponentsChangedMessage) else 3
+        k = self.layer_key(m.sender)
+        d, g, r = (k[1], -1, 0) if k[0] == 0 else (k[1], k[2], k[3])
+        attr = 0 if getattr(m, 'attribute', None) == 'style' else 1
+        return (code, d, g, r, attr, 1 if hasattr(m, 'components_changed') else 0)
 
     def close_blocks(self):
         for vi, cm in list(self.lcm.items()):
@@ -282,10 +354,33 @@ class Sess(object):
             self.viewers[vi].remove_layer(self.get_data(d))
             if d in self.given[vi]:
                 self.given[vi].remove(d)
+        elif k in UPDATE_OPS:
+            if self._rec is None:
+                self.record_updates()
+            if k in ('substyle', 'substate'):
+                if op[1] not in self.groups or not any(self.groups[op[1]] is g for g in self.dc.subset_groups):
+                    raise InvalidHistory()
+                grp = self.groups[op[1]]
+                self.ncomp += 1
+                if k == 'substyle':
+                    grp.style.color = '#%06x' % (0x123456 + self.ncomp)
+                else:
+                    d0 = self.dc[0] if len(self.dc) else None
+                    if d0 is None:
+                        raise InvalidHistory()
+                    grp.subset_state = d0.id['x'] > (self.ncomp % 3)
+            else:
+                data = self.get_data(op[1])
+                self.ncomp += 1
+                if k == 'addcomp':
+                    data.add_component(np.arange(4.).reshape(2, 2) + self.ncomp, 'c%d' % self.ncomp)
+                else:
+                    data.update_components({data.id['x']: np.arange(4.).reshape(2, 2) + self.ncomp})
         elif k == 'restore':
             if self.lcm or self.hcm is not None:
                 raise InvalidHistory()
             self.restore()
+            self._rec = None
         elif k == 'lbegin':
             from echo import delay_callback
             if op[1] in self.lcm:
@@ -532,8 +627,13 @@ def image_axes_problems(st):
     return out
 
 
+# operations that only make the hub carry update messages (SubsetUpdateMessage, NumericalDataChangedMessage, ComponentsChangedMessage): invisible to the
+# hand model; the translated machine receives the recorded messages (the concrete op carries them as its last element)
+UPDATE_OPS = ('substyle', 'substate', 'addcomp', 'updcomp')
+
+
 # ====================================================================== model side for viewers
-def model_ops(ops, vi):
+def model_ops(ops, vi, gen=False):
     """project a harness history on viewer vi and encode it for the model"""
     out = []
     for op in ops:
@@ -560,13 +660,17 @@ def model_ops(ops, vi):
             out.append((10, []) if op[1] == vi else None)
         elif k == 'lend':
             out.append((11, []) if op[1] == vi else None)
+        elif k in UPDATE_OPS:
+            msgs = op[-1] if (gen and isinstance(op[-1], (tuple, list))) else None
+            out.append((12, [(m[0], [m[1], m[2], m[3], m[4], m[5]]) for m in msgs]) if msgs is not None else None)
         elif k in ('hbegin', 'hend'):
             raise ValueError('hub delay blocks around collection operations are not modelled (oracle-only stream)')
     return out
 
 
-def model_line(fixed, known, mops):
-    return enc((1, [1 if fixed else 0, Z(known), (0, [m for m in mops if m is not None])]))
+def model_line(fixed, known, mops, tag_=1):
+    """tag 1: the hand model; tag 5: the functions translated from viewer.py / layer_artist.py (coq/gen/Gen_viewer.v)"""
+    return enc((tag_, [1 if fixed else 0, Z(known), (0, [m for m in mops if m is not None])]))
 
 
 def dec_layer(t):
@@ -576,9 +680,24 @@ def dec_layer(t):
     return (1, a[0], a[1], a[2])
 
 
+def dec_event(t):
+    if tag(t) in (1, 5):
+        return (tag(t),)
+    a = to_zs(kids(t)[0])
+    return (tag(t), a[0], a[1])
+
+
 def dec_vobs(t):
-    st, given = kids(t)
+    ks = kids(t)
+    st, given = ks[0], ks[1]
     k = kids(st)
+    extra = {}
+    if len(ks) > 2:      # the translated machine also reports its error flag (fuel exhausted) and the opaque calls of the step
+        extra = {'err': tag(ks[2]), 'events': [dec_event(x) for x in kids(ks[2])]}
+    return dict(extra, **_dec_vobs_core(st, k, given))
+
+
+def _dec_vobs_core(st, k, given):
     return {'status': tag(st),
             'arts': [dec_layer(x) for x in kids(k[0])], 'sls': [dec_layer(x) for x in kids(k[1])],
             'dc': to_zs(k[2]), 'groups': to_zs(k[3]),
@@ -589,7 +708,7 @@ def dec_vobs(t):
 def known_ids(ops):
     s = set()
     for op in ops:
-        if op[0] in ('append', 'remove'):
+        if op[0] in ('append', 'remove', 'addcomp', 'updcomp'):
             s.add(op[1])
         elif op[0] in ('add', 'rmdata', 'addsub', 'rmlayer'):
             s.add(op[2])
@@ -605,14 +724,19 @@ def impl_history(kinds, ops, fixed, draw=False):
     orac = None
     crash = None
     conc = []
+    restored = False
     try:
         for op in ops:
             if op[0] == 'addsub?':
                 op = concretise_addsub(sess, rng_pick=len(conc))
                 if op is None:
                     continue
+            if op[0] in UPDATE_OPS and isinstance(op[-1], (tuple, list)):
+                op = tuple(op[:-1])          # a stored case: the messages are recorded afresh
             i = len(conc)
             conc.append(op)
+            del _EVENTS[:]
+            del sess.msgs[:]
             try:
                 status = sess.apply(op)
             except InvalidHistory:
@@ -621,11 +745,20 @@ def impl_history(kinds, ops, fixed, draw=False):
             except Exception as e:     # any exception other than the modelled one is itself a failure of the history
                 crash = (i, '%s: %s' % (type(e).__name__, e))
                 break
+            if op[0] in UPDATE_OPS:
+                conc[i] = tuple(op) + (tuple(sess.msg_key(m) for m in sess.msgs),)
+                GEN_STATS['update_msgs'] += len(sess.msgs)
             for vi in range(len(kinds)):
                 o = sess.observe(vi, known)
                 mine = op[0] in ('add', 'rmdata', 'addsub', 'rmlayer') and op[1] == vi
                 o['status'] = status if mine else 0
                 o['given'] = list(sess.given[vi])
+                # the opaque calls of this step (light viewer only; a restore builds new viewers with calls the model does not make)
+                # after a restore the hub delivers DataCollectionDeleteMessage to the re-created subset groups before the viewer (subscription order
+                # of the new session: the environment, not the viewer): the calls of a dc.remove are then compared by end state only
+                restored = restored or op[0] == 'restore'
+                o['events'] = [sess.event_key(e) for e in _EVENTS] if (kinds[vi] == 'light' and len(kinds) == 1 and op[0] != 'restore'
+                                                                        and not (restored and op[0] == 'remove')) else None
                 impl[vi].append((i, o))
                 # inside an open delay block the held-back callbacks / messages have not run yet: the invariants are evaluated
                 # when the block is left (and at every step outside blocks)
@@ -650,16 +783,17 @@ def has_lone_subset(impl):
     return False
 
 
-def history_lines(kinds, ops, fixed):
+def history_lines(kinds, ops, fixed, tag_=1):
     known = known_ids(ops)
-    return [model_line(fixed, known, model_ops(ops, vi)) for vi in range(len(kinds))]
+    return [model_line(fixed, known, model_ops(ops, vi, gen=(tag_ == 5)), tag_) for vi in range(len(kinds))]
 
 
-def cmp_history(kinds, ops, impl, outs):
+def cmp_history(kinds, ops, impl, outs, gen=False):
+    """gen: `outs` come from the translated machine (tag 5): also its error flag and, for the light viewer, the opaque calls of each step"""
     known = known_ids(ops)
     corr = None
     for vi, out in enumerate(outs):
-        mops = model_ops(ops, vi)
+        mops = model_ops(ops, vi, gen=gen)
         idx = [i for i, m in enumerate(mops) if m is not None]
         steps = [dec_vobs(t) for t in kids(out)]
         pos = {i: n for n, i in enumerate(idx)}
@@ -678,8 +812,14 @@ def cmp_history(kinds, ops, impl, outs):
                 diff.append('subs')
             if cmp_status and o['status'] != m['status']:
                 diff.append('status')
+            if gen and cmp_status:
+                if m.get('err'):
+                    diff.append('err')
+                    o = dict(o, err=0)
+                if o.get('events') is not None and [tuple(x) for x in o['events']] != [tuple(x) for x in m.get('events', [])]:
+                    diff.append('events')
             if diff and corr is None:
-                corr = {'step': i, 'viewer': kinds[vi], 'fields': diff,
+                corr = {'step': i, 'viewer': kinds[vi], 'fields': diff, 'machine': 'translated (Gen_viewer.v)' if gen else 'hand model',
                         'impl': {k: o[k] for k in diff}, 'model': {k: m[k] for k in diff}}
     return corr
 
@@ -689,8 +829,9 @@ def run_history(R, kinds, ops, fixed, stream, draw=False):
     conc, orac, impl = impl_history(kinds, ops, fixed, draw=draw)
     if any(o[0] in ('hbegin', 'hend') for o in conc):
         return orac, None        # hub delay blocks around collection operations: oracle only
-    outs = R.model(history_lines(kinds, conc, fixed))
-    return orac, cmp_history(kinds, conc, impl, outs)
+    outs = R.model(history_lines(kinds, conc, fixed) + history_lines(kinds, conc, fixed, 5))
+    n = len(kinds)
+    return orac, (cmp_history(kinds, conc, impl, outs[:n]) or cmp_history(kinds, conc, impl, outs[n:], gen=True))
 
 
 def shrink_history(R, kinds, ops, fixed, stream, draw, pred):
@@ -729,6 +870,8 @@ def valid_history(ops):
             return False
         elif op[0] == 'addsub' and op[3] not in made:
             return False
+        elif op[0] in ('substyle', 'substate') and op[1] not in made:
+            return False
     # delay blocks must stay balanced
     openl, openh = set(), False
     for op in ops:
@@ -766,6 +909,8 @@ def report_history(R, kinds, ops, fixed, stream, draw, orac, corr):
         case['ops'] = [list(o) for o in small]
         R.fail('correspondence', case, c2 if c2 is not None else corr)
 
+
+GEN_STATS = {'cases': 0, 'random_cases': 0, 'steps': 0, 'update_msgs': 0}
 
 # ---------------------------------------------------------------------- stream: light viewer, exhaustive
 LIGHT_SYMS = ['app0', 'app1', 'rem0', 'rem1', 'newg', 'rmg_old', 'rmg_new', 'add0', 'add1', 'rmd0', 'rmd1', 'addsub', 'restore', 'rml0', 'rml1']
@@ -866,15 +1011,55 @@ def stream_viewer_light(R, fixed):
                     R.hist['viewer_op'][o[0]] += 1
     lines = [history_lines(['light'], conc, fixed)[0] for conc, _, _ in batch]
     outs = R.model(lines)
+    gouts = R.model([history_lines(['light'], conc, fixed, 5)[0] for conc, _, _ in batch])
+    GEN_STATS['cases'] += len(batch)
+    GEN_STATS['steps'] += sum(len(conc) for conc, _, _ in batch)
     nfail = 0
-    for (conc, orac, impl), out in zip(batch, outs):
-        corr = cmp_history(['light'], conc, impl, [out])
+    for (conc, orac, impl), out, gout in zip(batch, outs, gouts):
+        corr = cmp_history(['light'], conc, impl, [out]) or cmp_history(['light'], conc, impl, [gout], gen=True)
         if (orac or corr) and nfail < 3:
             nfail += 1
             report_history(R, ['light'], conc, fixed, 'viewer_light', False, orac, corr)
     R.sample({'viewer_light': [list(o) for o in resolve_symbols(prefixes[1], ('newg', 'rem0', 'app0')) if o[0] != 'addsub?']})
     R.stream('viewer_light', cases=len(batch), exhaustive=True, wall_s=round(time.time() - t0, 1),
              bound='all sequences over %d symbols (2 datasets, fresh groups, one viewer, save/restore, add_subset of any current subset, remove_layer of a dataset layer) of length <= %s after %d prefixes' % (len(LIGHT_SYMS), depth, len(prefixes)))
+
+
+def stream_viewer_updates(R, fixed):
+    """light viewer: histories in which the hub also carries update messages (subset style / state changes, added components, changed values).  They
+    have no structural effect (hand model and oracle as usual); the translated _update_subset / _update_data / _update_data_numerical with their
+    filters must make exactly the artist.update() / _on_components_changed calls the real viewer makes."""
+    t0 = time.time()
+    prefixes = [[('append', 0), ('append', 1), ('newgroup', 0), ('add', 0, 0)],
+                [('append', 0), ('append', 1), ('newgroup', 0), ('newgroup', 1), ('addsub', 0, 1, 1, 0), ('add', 0, 0), ('rmlayer', 0, 0)]]
+    syms = [('substyle', 0), ('substate', 0), ('substate', 1), ('addcomp', 0), ('addcomp', 1), ('updcomp', 0), ('updcomp', 1),
+            ('add', 0, 1), ('rmdata', 0, 0), ('rmgroup', 0), ('remove', 1)]
+    depth = R.pick(2, 3)
+    batch = []
+    for prefix in prefixes:
+        for ln in range(1, depth + 1):
+            for seq in itertools.product(syms, repeat=ln):
+                if not any(o[0] in UPDATE_OPS for o in seq):
+                    continue
+                ops = list(prefix) + list(seq)
+                if not valid_history(ops):
+                    continue
+                conc, orac, impl = impl_history(['light'], ops, fixed)
+                batch.append((conc, orac, impl))
+                R.count(('upd', tuple(map(tuple, [o[:-1] if o[0] in UPDATE_OPS else o for o in conc]))), nontrivial=True, stream='viewer_updates', history_len=len(conc))
+    outs = R.model([history_lines(['light'], conc, fixed)[0] for conc, _, _ in batch])
+    gouts = R.model([history_lines(['light'], conc, fixed, 5)[0] for conc, _, _ in batch])
+    GEN_STATS['cases'] += len(batch)
+    GEN_STATS['steps'] += sum(len(conc) for conc, _, _ in batch)
+    nfail = 0
+    for (conc, orac, impl), out, gout in zip(batch, outs, gouts):
+        corr = cmp_history(['light'], conc, impl, [out]) or cmp_history(['light'], conc, impl, [gout], gen=True)
+        if (orac or corr) and nfail < 3:
+            nfail += 1
+            report_history(R, ['light'], conc, fixed, 'viewer_updates', False, orac, corr)
+    R.stream('viewer_updates', cases=len(batch), update_messages=GEN_STATS['update_msgs'], exhaustive=True, wall_s=round(time.time() - t0, 1),
+             bound='light viewer, 2 prefixes (shown dataset with subset; lone subset layers of two groups): every sequence of length <= %d over %d operations that contains '
+                   'at least one of subset style change / subset state change / add_component / update_components' % (depth, len(syms)))
 
 
 def block_ok(syms):
@@ -923,9 +1108,12 @@ def stream_viewer_blocks(R, fixed):
                     batch.append((conc, orac, impl))
                     R.count(('lblock', tuple(map(tuple, conc))), nontrivial=True, stream='viewer_blocks_layers', history_len=len(conc))
     outs = R.model([history_lines(['light'], conc, fixed)[0] for conc, _, _ in batch])
+    gouts = R.model([history_lines(['light'], conc, fixed, 5)[0] for conc, _, _ in batch])
+    GEN_STATS['cases'] += len(batch)
+    GEN_STATS['steps'] += sum(len(conc) for conc, _, _ in batch)
     nfail = 0
-    for (conc, orac, impl), out in zip(batch, outs):
-        corr = cmp_history(['light'], conc, impl, [out])
+    for (conc, orac, impl), out, gout in zip(batch, outs, gouts):
+        corr = cmp_history(['light'], conc, impl, [out]) or cmp_history(['light'], conc, impl, [gout], gen=True)
         if (orac or corr) and nfail < 3:
             nfail += 1
             report_history(R, ['light'], conc, fixed, 'viewer_blocks', False, orac, corr)
@@ -1159,7 +1347,7 @@ def stream_viewer_mpl(R, fixed):
             continue
         hub = (i % 5 == 4)
         ops = random_history(rng, len(kinds), length if i % 2 else max(4, length - 8), with_restore, lone=(i % 2 == 0),
-                             blocks=(i % 3 != 1), hub=hub)
+                             blocks=(i % 3 != 1) and not draw, hub=hub)     # no user-opened blocks in the histories that really draw (see ASSUMPTIONS)
         conc, orac, impl = impl_history(kinds, ops, fixed, draw=draw)
         batch.append((kinds, draw, conc, orac, impl))
         R.count(('mpl', tuple(kinds), tuple(map(tuple, conc))), nontrivial=any(o[0] in ('add', 'addsub') for o in conc), stream='viewer_mpl',
@@ -1174,14 +1362,22 @@ def stream_viewer_mpl(R, fixed):
         if not any(o[0] in ('hbegin', 'hend') for o in conc):
             lines += history_lines(kinds, conc, fixed)
     outs = R.model(lines)
+    glines = []
+    for kinds, draw, conc, orac, impl in batch:
+        if not any(o[0] in ('hbegin', 'hend') for o in conc):
+            glines += history_lines(kinds, conc, fixed, 5)
+    gouts = R.model(glines)
     nfail = 0
     p = 0
     for kinds, draw, conc, orac, impl in batch:
         corr = None
         if not any(o[0] in ('hbegin', 'hend') for o in conc):       # hub blocks around collection operations: oracle only
             mine = outs[p:p + len(kinds)]
+            gmine = gouts[p:p + len(kinds)]
             p += len(kinds)
-            corr = cmp_history(kinds, conc, impl, mine)
+            GEN_STATS['random_cases'] += len(kinds)
+            GEN_STATS['steps'] += len(conc) * len(kinds)
+            corr = cmp_history(kinds, conc, impl, mine) or cmp_history(kinds, conc, impl, gmine, gen=True)
         if (orac or corr) and nfail < 3:
             nfail += 1
             report_history(R, kinds, conc, fixed, 'viewer_mpl', draw, orac, corr)
@@ -1462,9 +1658,20 @@ def cmp_picker(ops, impl, out):
     return corr
 
 
+def gen_picker_line(line):
+    assert line.startswith('(2 ')
+    return '(6 ' + line[3:]
+
+
+def gen_dpicker_line(line):
+    assert line.startswith('(3 ')
+    return '(7 ' + line[3:]
+
+
 def run_picker_history(R, spec, flags, defidx, hasdc, ops):
     orac, impl, line = impl_picker(spec, flags, defidx, hasdc, ops)
-    return orac, cmp_picker(ops, impl, R.model([line])[0])
+    o1, o2 = R.model([line, gen_picker_line(line)])
+    return orac, (cmp_picker(ops, impl, o1) or cmp_picker(ops, impl, o2))
 
 
 class PickerGen(object):
@@ -1678,12 +1885,21 @@ def stream_picker(R):
         if i < 2:
             R.sample({'picker': {'spec': spec, 'flags': flags, 'default_index': defidx, 'data_collection': hasdc, 'ops': [list(o) for o in ops]}})
     outs = R.model([b[7] for b in batch])
+    # the same histories through the functions translated from data_combo_helper.py (run_case tag 6, coq/gen/Gen_picker.v)
+    gouts = R.model([gen_picker_line(b[7]) for b in batch])
     nfail = 0
-    for (spec, flags, defidx, hasdc, ops, orac, impl, line), out in zip(batch, outs):
+    for (spec, flags, defidx, hasdc, ops, orac, impl, line), out, gout in zip(batch, outs, gouts):
         corr = cmp_picker(ops, impl, out)
+        if corr is None:
+            corr = cmp_picker(ops, impl, gout)
+            if corr is not None:
+                corr['machine'] = 'translated (Gen_picker.v)'
         if (orac or corr) and nfail < 3:
             nfail += 1
             report_picker(R, spec, flags, defidx, hasdc, ops, orac, corr)
+    R.stream('picker_gen', exhaustive_cases=nexh, random_cases=nrand, exhaustive=True,
+             bound='every history of the picker stream is also run through the translated ComponentIDComboHelper.refresh / _filter_msg / register_to_hub table '
+                   '(run_case tag 6): choices, selection, datasets and status compared after every step')
     R.stream('picker', exhaustive_cases=nexh, random_cases=nrand, wall_s=round(time.time() - t0, 1),
              bound='exhaustive: all sequences of length <= %d over %d ops (2 datasets, helper with data_collection; without it one level less in the quick tier); random: 5..20 ops over 3 dataset '
                    'configurations (1-d/2-d, with/without coords, numerical/categorical/datetime), 7 filter flags, default_index in {0,1,-1,-2,5}, '
@@ -1822,7 +2038,8 @@ def cmp_dpicker(impl, out):
 
 def run_dpicker_history(R, manual, ndata, ops):
     orac, impl, line = impl_dpicker(manual, ndata, ops)
-    return orac, cmp_dpicker(impl, R.model([line])[0])
+    o1, o2 = R.model([line, gen_dpicker_line(line)])
+    return orac, (cmp_dpicker(impl, o1) or cmp_dpicker(impl, o2))
 
 
 def stream_data_picker(R):
@@ -1841,9 +2058,17 @@ def stream_data_picker(R):
                 batch.append((manual, ops, orac, impl, line))
                 R.count(('dpicker', manual, tuple(map(str, ops))), nontrivial=True, stream='data_picker', history_len=len(ops))
     outs = R.model([b[4] for b in batch])
+    # the same histories through the translated dataset pickers (run_case tag 7, coq/gen/Gen_picker.v second half)
+    gouts = R.model([gen_dpicker_line(b[4]) for b in batch])
+    R.stream('data_picker_gen', cases=len(batch), exhaustive=True,
+             bound='every history of the data_picker stream also through the translated ManualDataComboHelper / DataCollectionComboHelper procedures and subscription tables (tag 7)')
     nfail = 0
-    for (manual, ops, orac, impl, line), out in zip(batch, outs):
+    for (manual, ops, orac, impl, line), out, gout in zip(batch, outs, gouts):
         corr = cmp_dpicker(impl, out)
+        if corr is None:
+            corr = cmp_dpicker(impl, gout)
+            if corr is not None:
+                corr['machine'] = 'translated (Gen_picker.v)'
         if (orac or corr) and nfail < 3:
             nfail += 1
             case = {'stream': 'data_picker', 'manual': manual, 'ops': [list(o) for o in ops]}
@@ -2005,7 +2230,12 @@ def run(R):
     stream_picker(R)
     stream_viewer_light(R, fixed)
     stream_viewer_blocks(R, fixed)
+    stream_viewer_updates(R, fixed)
     stream_viewer_mpl(R, fixed)
+    R.stream('viewer_gen', cases=GEN_STATS['cases'], random_cases=GEN_STATS['random_cases'], steps=GEN_STATS['steps'], exhaustive=True,
+             bound='every history of viewer_light and viewer_blocks (exhaustive small scope) and every modelled history of viewer_mpl (seeded random) is also run '
+                   'through the functions translated from viewer.py / layer_artist.py (run_case tag 5, coq/gen/Gen_viewer.v): artists, state.layers, status and error flag '
+                   'compared after every step; for the light viewer also the sequence of opaque calls (draw_legend, artist.update / remove) of every step')
 
 
 def replay(R, case):
@@ -2015,7 +2245,7 @@ def replay(R, case):
         return {'note': 'this replay file records a broken proof / correspondence without a failing input of the property; see its `broken` and `correspondence_cases` fields', 'violates': False}
     st = case.get('stream')
     out = {'case': case}
-    if st in ('viewer_light', 'viewer_mpl', 'viewer_blocks'):
+    if st in ('viewer_light', 'viewer_mpl', 'viewer_blocks', 'viewer_updates'):
         fixed = probe_fixed()
         ops = [tuple(o) for o in case['ops']]
         orac, corr = run_history(R, case['kinds'], ops, fixed, st, draw=case.get('draw', False))
